@@ -101,6 +101,12 @@ type caseIn struct {
 	Dcap     int      `json:"dcap"`
 	Dribble  []int    `json:"dribble"`
 
+	// stream mode: the reading FrameStream is created with a TunnelStateTracker (NewFrameStreamWithTracker);
+	// premarked ids are reported closed from the start, marks[i] = {after: k, id} is reported closed once k Reads have returned
+	Tracker   bool     `json:"tracker"`
+	Premarked []string `json:"premarked"`
+	Marks     []markIn `json:"marks"`
+
 	Strs []string `json:"strs"` // tid mode: id strings (hex)
 
 	Req   string `json:"req"`   // fwd mode: request bytes (hex), response bytes (hex), application write sizes
@@ -125,6 +131,24 @@ type caseIn struct {
 	UseCloser bool   `json:"use_closer"` // LocalConnCloser configured
 	Order     string `json:"order"`      // halfclose mode: "peer-first" | "local-first"
 }
+
+type markIn struct {
+	After int    `json:"after"`
+	ID    string `json:"id"` // hex of the tunnel-id string
+}
+
+// mapTracker: the node-wide closed-tunnel set (SessionManager.MarkTunnelClosed / IsTunnelClosed) as a plain map
+type mapTracker struct {
+	mu     sync.Mutex
+	closed map[string]bool
+}
+
+func (t *mapTracker) IsTunnelClosed(id string) bool {
+	t.mu.Lock()
+	defer t.mu.Unlock()
+	return t.closed[id]
+}
+func (t *mapTracker) mark(id string) { t.mu.Lock(); t.closed[id] = true; t.mu.Unlock() }
 
 type decObs struct {
 	Ok       bool   `json:"ok"`
@@ -513,6 +537,24 @@ func readerSide(c *caseIn, b *net.TCPConn, limit int) readRes {
 	id, err := crossnode.TunnelIDFromString(string(unhx(c.Reader)))
 	hmust(err)
 	fs := crossnode.NewFrameStream(conn, id)
+	var tr *mapTracker
+	if c.Tracker {
+		tr = &mapTracker{closed: map[string]bool{}}
+		for _, h := range c.Premarked {
+			tr.mark(string(unhx(h)))
+		}
+		fs = crossnode.NewFrameStreamWithTracker(conn, id, tr)
+	}
+	applyMarks := func(readsDone int) {
+		if tr == nil {
+			return
+		}
+		for _, m := range c.Marks {
+			if m.After == readsDone {
+				tr.mark(string(unhx(m.ID)))
+			}
+		}
+	}
 	if c.ReaderCW {
 		hmust(fs.CloseWrite())
 	}
@@ -531,6 +573,7 @@ func readerSide(c *caseIn, b *net.TCPConn, limit int) readRes {
 			k = 1
 		}
 		buf := make([]byte, k)
+		applyMarks(i)
 		n, err := fs.Read(buf)
 		if err != nil {
 			if err == io.EOF {
@@ -1153,13 +1196,16 @@ func gen() {
 	fmt.Println("(* decoder errors on: empty input, truncated header, oversized length, missing payload, truncated payload *)")
 	fmt.Println("Definition decode_error_table : list (bool * bool) := [")
 	for i, in := range inputs {
-		_, _, _, err := crossnode.ReadFrameFromReader(bytes.NewReader(in))
-		if err == nil {
-			panic("gen: expected a decode error")
-		}
+		_, _, _, err, pnc := safeReadFrame(bytes.NewReader(in))
 		sep := ";"
 		if i == len(inputs)-1 {
 			sep = ""
+		}
+		if err == nil || pnc != nil {
+			// the probe did not get the error every decoder must give here: emit a row no model row can equal
+			// (io.EOF yet not "closed"), so that Proofs/SideC10.v error_classification_matches_code fails and names it
+			fmt.Printf(" (true, false)%s (* PROBE FAILED on input %d (% x): err=%v panic=%v *)\n", sep, i, in, err, pnc)
+			continue
 		}
 		fmt.Printf(" (%s, %s)%s\n", bl(err == io.EOF), bl(crossnode.VerifIsConnectionClosedError(err)), sep)
 	}
@@ -1168,6 +1214,14 @@ func gen() {
 
 func main() {
 	if len(os.Args) > 1 && os.Args[1] == "gen" {
+		defer func() {
+			if p := recover(); p != nil {
+				// never leave a half-written but well-formed file behind: the driver keeps the previous Gen/C10.v,
+				// reports the translator as broken AFTER it has run all cases, and this text says why
+				fmt.Printf("\n(* GEN ABORTED: %v *)\nDefinition gen_aborted : False := I.\n", p)
+				os.Exit(3)
+			}
+		}()
 		gen()
 		return
 	}
